@@ -18,7 +18,7 @@ for d in sorted(glob.glob(f"{ROOT}/seeded/*")):
             nf = " no failing input" if "no-failing-input-found" in v else ""
             parts.append(f"{c} (`{key}`{',' + nf if nf else ''})")
         elif c == m["property"]:
-            parts.append(f"{c}: missed")
+            parts.append(f"{c}: " + ("no longer a violation (neutralized by a later fix, see meta.json)" if m.get("neutralized") else "missed"))
     files = ", ".join(os.path.basename(f) for f in m.get("files", []))
     title = m.get("title", "").replace("|", "/")
     print(f"| {m['id']} | {files} | {title} | {'; '.join(parts)} |")
